@@ -34,12 +34,15 @@
      "xor_as_or"     ^= implemented as |=
      "offset_div"    bit_offset computed with / instead of %
      "subset_right"  is_subset_eq compares (l & r) with r *)
-EXTENDS Bitfield
+EXTENDS Bitfield, Json
 
 CONSTANTS W,      \* bits per storage word (std::numeric_limits<Word>::digits)
-          Bug     \* "none" or one of the defects listed above
+          Bug,    \* "none" or one of the defects listed above
+          FullOps \* TRUE: every operation record of Bitfield!Ops; FALSE: CoreOps
 
-VARIABLES ix, iy
+VARIABLES x, y,     \* abstract registers (sets of enumerators)
+          ix, iy,   \* their storage words
+          hist      \* operations applied so far (hidden by VIEW; for script emission)
 ivars == <<x, y, hist, ix, iy>>
 
 NW == (N + W - 1) \div W                \* fcppt::math::ceil_div_static
@@ -109,19 +112,21 @@ IEff(vx, vy, a) ==
     [] a.op = "ilist" -> IR(ISetAll(INull, a.s, 1), vy)
     [] a.op = "init" -> IR(IInitFrom(INull, SeqToSet(a.s), 0), vy)
 
-IInit == Init /\ ix = INull /\ iy = INull
+IInit == x = Null /\ y = Null /\ hist = <<>> /\ ix = INull /\ iy = INull
 
 IStep(a) ==
-  /\ Step(a)
+  /\ Pre(a)
+  /\ LET e == Eff(x, y, a) IN x' = e.x /\ y' = e.y
   /\ LET e == IEff(ix, iy, a) IN ix' = e.x /\ iy' = e.y
+  /\ hist' = Append(hist, a)
 
-INext == \E a \in Ops : IStep(a)
+INext == \E a \in (IF FullOps THEN Ops ELSE CoreOps) : IStep(a)
 ISpec == IInit /\ [][INext]_ivars
 IView == <<x, y, ix, iy>>
 
 (* ---- what TLC checks ---- *)
 ITypeOK ==
-  /\ TypeOK
+  /\ x \in Values /\ y \in Values
   /\ DOMAIN ix = WordIdx /\ DOMAIN iy = WordIdx
   /\ \A k \in WordIdx : ix[k] \subseteq BitPos /\ iy[k] \subseteq BitPos
 
@@ -146,4 +151,10 @@ ConstructorsAgree ==
   /\ Abs(IInitFrom(INull, x, 0)) = x
   /\ IEq(ISetAll(INull, SetToSeq(x), 1), IInitFrom(INull, x, 0))
   /\ (Bug = "none") => IEq(ix, IInitFrom(INull, x, 0))
+
+Laws == LawsOf(x, y)
+
+(* script emission (spec -> code): with EmitScripts as a CONSTRAINT TLC prints the
+   operation history of every generated transition *)
+EmitScripts == PrintT("SCRIPT " \o ToJson(hist))
 =============================================================================
